@@ -39,6 +39,7 @@ Fixpoint offenders (ts : list tool) (idx : nat) : wire :=
       ++ (if unknown_ok t then [] else [zn idx; -3; 0])
       ++ (if aliases_ok t then [] else [zn idx; -4; 0])
       ++ (if documented_ok t then [] else [zn idx; -5; 0])
+      ++ (if tool_params_used_ok t then [] else [zn idx; -6; 0])
       ++ offenders r (S idx)
   end.
 
